@@ -453,6 +453,72 @@ theorem deepMerge_earlier_kept (k : String) (a b : KVs) (hk : k ∉ KV.keys b) :
     KV.lookup k (deepMergeKVs a b) = KV.lookup k a :=
   lookup_deepMerge_not_mem k b a hk
 
+/-- `update_in` hands `f` the entry that was at the path (an absent one counts as `{}`) and stores
+its result there -/
+theorem updateIn_reads_old (f : Val → Except Err Val) (d d' : Val) (p : Path)
+    (h : updateIn f d p = .ok d') :
+    ∃ old new, f old = .ok new ∧ getIn d' p = .ok (some new) ∧
+      (getIn d p = .ok (some old) ∨ (getIn d p = .ok none ∧ old = .dict [])) := by
+  induction p generalizing d d' with
+  | nil => exact ⟨d, d', by simpa [updateIn] using h, by simp [getIn], Or.inl (by simp [getIn])⟩
+  | cons k rest ih =>
+    cases d with
+    | dict kvs =>
+      simp only [updateIn] at h
+      cases hr : updateIn f ((KV.lookup k kvs).getD (.dict [])) rest with
+      | error e => simp [hr] at h
+      | ok c =>
+        simp only [hr] at h
+        injection h with h; subst h
+        obtain ⟨old, new, h1, h2, h3⟩ := ih _ _ hr
+        refine ⟨old, new, h1, by simp [getIn, h2], ?_⟩
+        cases hl : KV.lookup k kvs with
+        | some ch => simpa [getIn, hl] using h3
+        | none =>
+          simp only [hl, Option.getD] at h3
+          right
+          refine ⟨by simp [getIn, hl], ?_⟩
+          rcases h3 with h3 | h3
+          · cases rest with
+            | nil => simp [getIn] at h3; exact h3.symm
+            | cons k' r' => simp [getIn, KV.lookup] at h3
+          · exact h3.2
+    | _ => simp [updateIn] at h
+
+/-- **Several ports of one process on one store: every proposed initial value is part of the initial
+state.**  `Composite.initial_state()` maps what a process proposes through each port to the place the
+port is wired to (`inverse_topology`, `multi_updates=False`); when two ports lead to the same store,
+the dictionary placed second is *merged into* what the first one left there: the variables of the
+first port that the second does not name keep their proposed values, and the second port's own
+(non-dictionary) values are there as well — in whichever order the ports are listed. -/
+theorem shared_store_initial_values_kept (inv i1 i2 : Val) (inner : Path) (vk1 vk2 : KVs)
+    (h1 : placeAt inv inner (.dict vk1) = .ok i1) (h2 : placeAt i1 inner (.dict vk2) = .ok i2) :
+    ∃ d1 d2, getIn i1 inner = .ok (some (.dict d1)) ∧ getIn i2 inner = .ok (some (.dict d2)) ∧
+      (∀ k, k ∉ KV.keys vk2 → KV.lookup k d2 = KV.lookup k d1) ∧
+      (∀ k v, KV.Nodup vk2 → KV.lookup k vk2 = some v → v.isDict = false → KV.lookup k d2 = some v) := by
+  simp only [placeAt] at h1 h2
+  obtain ⟨old1, new1, hf1, hg1, _⟩ := updateIn_reads_old _ _ _ _ h1
+  obtain ⟨old2, new2, hf2, hg2, ho2⟩ := updateIn_reads_old _ _ _ _ h2
+  have hd1 : ∃ d1, new1 = .dict d1 := by
+    cases old1 <;> simp [mergeFn] at hf1 <;> exact ⟨_, hf1.symm⟩
+  obtain ⟨d1, rfl⟩ := hd1
+  have ho : old2 = .dict d1 := by
+    rcases ho2 with ho2 | ho2
+    · rw [hg1] at ho2; simpa using ho2.symm
+    · rw [hg1] at ho2; simp at ho2
+  subst ho
+  simp only [mergeFn, Except.ok.injEq] at hf2
+  subst hf2
+  exact ⟨d1, _, hg1, hg2, fun k hk => deepMerge_earlier_kept k d1 vk2 hk,
+    fun k v hn hk hv => deepMerge_later_wins k v hv vk2 d1 hn hk⟩
+
+example : (do let i1 ← placeAt (.dict []) ["cell"] (.dict [("glc_in", .int 5)])
+              let i2 ← placeAt i1 ["cell"] (.dict [("glc", .int 100)])
+              getIn i2 ["cell"]) = .ok (some (.dict [("glc_in", .int 5), ("glc", .int 100)])) := by
+  simp [placeAt, updateIn, mergeFn, deepMergeKVs, KV.lookup, KV.set, getIn, bind, Except.bind]
+  rw [show deepMergeKVs [] [("glc_in", Val.int 5)] = [("glc_in", Val.int 5)] from by
+    unfold deepMergeKVs; simp [KV.lookup, KV.set]; unfold deepMergeKVs; rfl]
+  simp [KV.set]
 /-- **The given state overrides the processes' own initial values** in
 `Composite.initial_state()`: whatever the processes place at a top-level key, a non-dictionary
 value given for it in the composite's `state`/`config['initial_state']` is the result. -/
